@@ -1,8 +1,8 @@
 \* exhaustive: every directory content of <= MaxChildren names of the universe x root/sub-directory x opaque mode,
 \* every order of calls (the state graph is finite: memoisation flag, memoised listing, in-memory children)
 CONSTANTS
-    RawU = {"a", ".wh.a", ".wh..wh..opq", ".prefetch.landmark", ".no.prefetch.landmark", "stargz.index.json", ".wh..wh.foo", "l"}
-    LookupU = {"a", ".wh.a", "foo", ".wh.foo", ".wh..wh.foo", ".wh..opq", ".wh..wh..opq", ".prefetch.landmark", ".no.prefetch.landmark", "stargz.index.json", "zz", ".stargz-snapshotter", "l"}
+    RawU = {"a", ".wh.a", ".wh..wh..opq", ".prefetch.landmark", ".no.prefetch.landmark", "stargz.index.json", ".wh..wh.foo", "l", "c13", "c00"}
+    LookupU = {"a", ".wh.a", "foo", ".wh.foo", ".wh..wh.foo", ".wh..opq", ".wh..wh..opq", ".prefetch.landmark", ".no.prefetch.landmark", "stargz.index.json", "zz", ".stargz-snapshotter", "l", "c13", "c00"}
     MaxChildren = 3
     ExtraContents = {}
     Modes = {"trusted", "user", "all"}
